@@ -1,6 +1,8 @@
 # C08 - stacked branches stay readable: a commit to a stacked repository goes ahead only when the inventories of all the new
 # revision's parents are present in the stacked repository itself (copied from the fallbacks when necessary), so the new revision's
 # inventory delta and texts can be read back without depending on more than the stacking contract.
+COMPREHENSION_IMAGE = True   # a mapped comprehension also yields: every element's value is contained in the result (sequence fact)
+BUDGET_QUICK = 30
 PKEY = Tup(BYTES)
 MKEY = Tup(STR, BYTES)
 ghost(local_inv=SetS(BYTES))           # revision ids whose inventory is present in the stacked repository itself (no fallbacks)
